@@ -128,7 +128,7 @@ class Sys04(c05.Sys05):
                 V.append((f'select:lexicons:{name}', f'after {hist}: Wordnet({kw}).lexicons() = {got_S} expected {S}'))
                 continue
             smap = smap or observe.spec_map()
-            T = observe.api_transcript(w, self.reltypes, smap)
+            T = observe.api_transcript(w, self.reltypes, smap, forms=universe.FORMS)
             exp_ids = sorted(T['expanded'])
             # (1a) membership
             if default_mode:
@@ -148,7 +148,8 @@ class Sys04(c05.Sys05):
                               f'after {hist}: Wordnet({kw}) returns entities of {sorted(bad)}, selection is {S}'))
             # (1b) equality with the scoped reference transcript (where no ILI expansion is active)
             if not exp_ids:
-                exp, unordered = idx.transcript(S, default_mode=default_mode, reltypes=self.reltypes)
+                exp, unordered = idx.transcript(S, default_mode=default_mode, reltypes=self.reltypes,
+                                                forms=universe.FORMS)
                 g, x = normalize_unordered(T, unordered), normalize_unordered(exp, unordered)
                 if self.annot:
                     g2, x2 = strip_x(g), strip_x(x)
